@@ -55,6 +55,16 @@ Proof.
 Qed.
 Print Assumptions C08_holds.
 
+Lemma C08_validb_valid c : validb c = true -> valid c.
+Proof.
+  unfold validb, valid. intros H. apply andb_true_iff in H as [H1 H2].
+  split; [apply Nat.leb_le; exact H1|apply negb_true_iff; exact H2].
+Qed.
+(* where the driver's `covered` flag is 1 the theorem above applies *)
+Theorem C08_covered_cases : forall c, validb c = true -> holds c (run_model c) = [].
+Proof. intros c H. apply C08_holds. apply C08_validb_valid. exact H. Qed.
+Print Assumptions C08_covered_cases.
+
 (* the behaviour before the repair of D4 violates the property *)
 Theorem C08_refuted_always_skip :
   exists c, (1 <= bs c)%nat /\ holds c (run_model c) <> [].
